@@ -46,6 +46,10 @@ impl LinkNameMatcher {
 
 impl Matcher for LinkNameMatcher {
     fn matches(&self, file_info: &WalkEntry, _: &mut MatcherIO) -> bool {
+        if !file_info.file_type().is_symlink() {
+            // Not a link, or a link the follow mode resolves.
+            return false;
+        }
         if let Some(target) = read_link_target(file_info) {
             self.pattern.matches(&target.to_string_lossy())
         } else {
